@@ -86,6 +86,13 @@ def run(ctx):
     ctx.discharge(obs, key + " [loop bodies; concatenations of 1-3 parts]", info)
     ctx.assumptions.append("update_ref_deps: one arbitrary element per loop; dependent concatenations unrolled for 1-3 "
                            "parts (bounded in the arity, symbolic in the parts)")
+    from contracts import c_conntarget
+    key, obs, info = c_conntarget.export_concat_obligations()
+    for u in info.get("unsupported", []):
+        ctx.unsupported.append((key, u))
+    if len(obs) < 4 and not info.get("unsupported"):
+        ctx.checker_errors.append(f"only {len(obs)} obligations for export_concat")
+    ctx.discharge(obs, key + " [parts in reverse order; 1-4 parts]", info)
     # array rule: element k of an n-array receives bits [k*w, (k+1)*w) of an n*w wide connection (all n, w, k)
     from contracts import c_arrays
     obs, info = c_arrays.obligations()
